@@ -274,20 +274,23 @@ func R35() Rule {
 			return f == "data" && core.TypeIs(fa.X.Type(), core.PkgGcsemu, "uploadData")
 		}
 		var trunc, app *ssa.Store
-		for _, b := range fn.Blocks {
-			for _, in := range b.Instrs {
-				st, ok := in.(*ssa.Store)
-				if !ok || !isDataAddr(st.Addr) {
-					continue
-				}
-				switch v := core.Resolve(st.Val).(type) {
-				case *ssa.Slice:
-					if v.High != nil && strings.HasSuffix(strings.Join(fieldChain(v.High), "."), "lo") {
-						trunc = st
+		// the handler together with the helpers / upload-session methods it is split into
+		for _, sf := range P.Scope(fn, func(f *ssa.Function) bool { return core.PkgPathOf(f) != core.PkgGcsemu }) {
+			for _, b := range sf.Blocks {
+				for _, in := range b.Instrs {
+					st, ok := in.(*ssa.Store)
+					if !ok || !isDataAddr(st.Addr) {
+						continue
 					}
-				case *ssa.Call:
-					if bi, ok := v.Call.Value.(*ssa.Builtin); ok && bi.Name() == "append" {
-						app = st
+					switch v := core.Resolve(st.Val).(type) {
+					case *ssa.Slice:
+						if v.High != nil && strings.HasSuffix(strings.Join(fieldChain(v.High), "."), "lo") {
+							trunc = st
+						}
+					case *ssa.Call:
+						if bi, ok := v.Call.Value.(*ssa.Builtin); ok && bi.Name() == "append" {
+							app = st
+						}
 					}
 				}
 			}
@@ -296,6 +299,11 @@ func R35() Rule {
 			c.Bad("R35", "resume/truncate-then-append", fn.Pos(), "cannot find the `data = data[:lo]` truncation followed by the append of the chunk: a re-sent range is not replaced")
 			return
 		}
+		if trunc.Parent() != app.Parent() {
+			c.Unknown("R35", "resume/truncate-then-append", trunc.Pos(), "the truncation and the append sit in different functions (%s, %s): the path rule is not decided across them", core.FuncName(trunc.Parent()), core.FuncName(app.Parent()))
+			return
+		}
+		fn = trunc.Parent()
 		// the only way to reach the append without the truncation is the `lo == -1` (no explicit offset) edge
 		var cut []cfgEdge
 		for _, b := range fn.Blocks {
